@@ -44,19 +44,34 @@ def confirm(mdir, wt):
     return out
 
 
-def run(seed, check, tier='quick'):
+def run(seed, check, tier='quick', inplace=False):
+    """run a check against the seeded defect.  Default: in a scratch worktree of /repo with the
+    patch applied (VERIF_REPO points the check at it), removed afterwards; --inplace applies the
+    patch to /repo itself and restores it (what the brief prescribes; same result)."""
     patch = os.path.join(VERIF, 'seeded', seed, 'patch.diff')
-    rc, o = sh('git -C /repo status --short')
-    if o.strip():
-        print('refusing: /repo not clean'); return 3
-    rc, o = sh('git -C /repo apply %s' % patch)
-    if rc:
-        print('apply failed', o); return 3
     t = time.time()
-    try:
-        rc, o = sh('./check %s --tier %s' % (check, tier), cwd=VERIF, timeout=7200)
-    finally:
-        sh('git -C /repo checkout -- .')
+    if inplace:
+        rc, o = sh('git -C /repo status --short')
+        if o.strip():
+            print('refusing: /repo not clean'); return 3
+        rc, o = sh('git -C /repo apply %s' % patch)
+        if rc:
+            print('apply failed', o); return 3
+        try:
+            rc, o = sh('./check %s --tier %s' % (check, tier), cwd=VERIF, timeout=7200)
+        finally:
+            sh('git -C /repo checkout -- .')
+    else:
+        wt = '/var/tmp/seedwt_%s_%d' % (seed, os.getpid())
+        rc, o = sh('git -C /repo worktree add -q --detach %s HEAD && git -C %s apply %s' % (wt, wt, patch))
+        if rc:
+            print('worktree/apply failed', o); sh('git -C /repo worktree remove --force %s' % wt); return 3
+        try:
+            env = dict(os.environ, VERIF_REPO=wt, VERIF_EVIDENCE_DIR='/var/tmp/seed_evidence_%d' % os.getpid())
+            rc, o = sh('./check %s --tier %s' % (check, tier), cwd=VERIF, env=env, timeout=7200)
+        finally:
+            sh('git -C /repo worktree remove --force %s' % wt)
+            sh('rm -rf /var/tmp/seed_evidence_%d' % os.getpid())
     lines = [l for l in o.splitlines() if l.startswith(('VIOLATION', '  label', 'KNOWN', 'INCONCLUSIVE', 'HARNESS', check))]
     print('\n'.join(lines[:12]))
     print('seed=%s check=%s tier=%s exit=%d wall=%.0fs' % (seed, check, tier, rc, time.time() - t))
@@ -67,4 +82,5 @@ if __name__ == '__main__':
     if sys.argv[1] == 'confirm':
         print(json.dumps(confirm(sys.argv[2], sys.argv[3]), indent=1))
     else:
-        sys.exit(run(*sys.argv[2:]))
+        args = [a for a in sys.argv[2:] if a != '--inplace']
+        sys.exit(run(*args, inplace='--inplace' in sys.argv))
